@@ -22,7 +22,9 @@ PROTOCOLS = (2, 0, 4, 3)
 
 
 def random_history(rnd):
-    n = rnd.randint(0, 8)
+    base = rnd.randint(0, 8)
+    # flow length of each data version: mostly the same, sometimes empty, sometimes another one
+    lens = [base if r < 0.55 else 0 if r < 0.8 else rnd.randint(0, 8) for r in (rnd.random() for _ in range(9))]
     nc = rnd.choice([1, 2, 2])
     shape = {"pre": rnd.random() < 0.6, "mid": nc == 2 and rnd.random() < 0.6, "post": rnd.random() < 0.6}
     sites = ["src", "pkl"] + [k for k in ("pre", "mid", "post") if shape[k]]
@@ -40,6 +42,7 @@ def random_history(rnd):
             ver += 1
             cmds.append({"cmd": "data", "a": "", "rc": rc, "c": 0})
         cmds.append({"cmd": "start", "a": rnd.choice(cl.FORMS), "rc": rc, "c": 0})
+        n = lens[ver - 1]
         end = rnd.random()
         if end < 0.45:      # complete run
             k, last = n + 1, None
@@ -50,12 +53,12 @@ def random_history(rnd):
         cmds.extend({"cmd": "next", "a": "", "rc": rc, "c": 0} for _ in range(k))
         if last:
             cmds.append(last)
-    return {"n": n, "nc": nc, "shape": shape}, cmds
+    return {"lens": lens, "nc": nc, "shape": shape}, cmds
 
 
 def binding_demo(ctx):
     """Corrupt one recorded field of an accepted history: Trace_Cache must reject exactly there."""
-    scen = {"n": 2, "nc": 1, "shape": {"pre": True, "mid": False, "post": True}}
+    scen = {"lens": [2, 2], "nc": 1, "shape": {"pre": True, "mid": False, "post": True}}
     nx = {"cmd": "next", "a": "", "rc": [False], "c": 0}
     cmds = [{"cmd": "new", "a": "", "rc": [False], "c": 0}, {"cmd": "start", "a": "seq", "rc": [False], "c": 0},
             nx, nx, nx]
@@ -91,7 +94,9 @@ def binding_demo(ctx):
 def run(ctx):
     tag = "thorough" if ctx.thorough else "quick"
     ctx.assume("pre / mid / post are one-to-one harness elements (tagging, counting, raising on demand); "
-               "flow values are picklable values in five styles (int, (data, context), str, nested, context only)")
+               "flow values are picklable values in seven styles (int, (data, context), str, nested, context only, "
+               "one context dict updated in place for every value, one growing list object), each identified by "
+               "its snapshot at the moment it is yielded; the flow length depends on the data version")
     ctx.assume("a cache left by an interrupted run may be kept, removed, refused with an exception by a later "
                "run, or hold the complete flow - everything except a loadable proper prefix is accepted")
     ctx.mc("Cache", "Cache_%s.cfg" % tag, coverage=True, must_cover=MUST)
